@@ -67,7 +67,12 @@ def ansiOp (op : String) (j : Json) : Except String Res := do
         [("dumbwrap_width", AnsiSpec.linesWithin w out),
          ("dumbwrap_keeps_all",
             ((Ansi.expand out).map fun m => (m.pre, m.letter)).filter (fun x => x.2 != '\n') =
-            ((Ansi.expand s).map fun m => (m.pre, m.letter)).filter (fun x => x.2 != '\n'))]
+            ((Ansi.expand s).map fun m => (m.pre, m.letter)).filter (fun x => x.2 != '\n')),
+         -- a break is added only where a line is longer than the width: every input line of n
+         -- cells becomes max 1 ⌈n / w⌉ lines, no empty line is invented
+         ("dumbwrap_breaks_only_where_needed",
+            (splitNL out).length ==
+              ((splitNL s).map fun l => max 1 ((AnsiSpec.visLen l + w.toNat - 1) / w.toNat)).foldl (· + ·) 0)]
       else []
     pure { model := js (Ansi.dumbWrap s w), preds := preds,
            nontrivial := (splitNL s).any fun l => decide ((AnsiSpec.visLen l : Int) > w) }
